@@ -5,6 +5,10 @@ import TempestVerif.Model.Resample
     syst.Q n=<nat> w=<rats> u0=<rat>                 (s = exact sum of w)
     syst.Q n=<nat> s=<rat> w=<rats> u0=<rat>         (s given)
     syst.F n=<nat> s=<float: np.sum(w)> w=<floats> u0=<float>
+    systnp.F / systnp.Q n=<nat> w=<scalars> u0=<scalar>   (np.sum modelled: pairwise summation)
+    npsum.F / npsum.Q w=<scalars>                         (the modelled np.sum alone)
+    run.F / run.Q beta0=<0|1> scheme=<mult|syst|other> n=<nat> w=<scalars> u0=<scalar> us=<scalars>   (Resampler.run)
+    post.F / post.Q w=<scalars> u0=<scalar>                                                            (posterior, resample branch)
     mult.Q / mult.F  w=<scalars> us=<scalars>
   answer: comma-separated index list (`-` = empty) or the error tag `IndexError` / `ValueError`.
 -/
@@ -29,16 +33,63 @@ def syst (α : Type) [Sc α] [Codec α] (args : List (String × String)) : Strin
       | none => "bad-op"
   | _, _, _ => "bad-op"
 
+/-- `npsum.F w=<floats>` → the model of `np.sum(w)` -/
+def npsum (α : Type) [Sc α] [Codec α] (args : List (String × String)) : String :=
+  match (getArg args "w").bind (parseList? (Codec.parse (α := α))) with
+  | some w => Codec.shw (npSum w)
+  | none => "bad-op"
+
+/-- `systnp.F n= w= u0=` → `systematic_resample` with the modelled `np.sum` -/
+def systnp (α : Type) [Sc α] [Codec α] (args : List (String × String)) : String :=
+  match (getArg args "n").bind String.toNat?,
+        (getArg args "w").bind (parseList? (Codec.parse (α := α))),
+        (getArg args "u0").bind (Codec.parse (α := α)) with
+  | some n, some w, some u0 => showIdx (systematicNp n w u0) "IndexError"
+  | _, _, _ => "bad-op"
+
 def mult (α : Type) [Sc α] [Codec α] (args : List (String × String)) : String :=
   match (getArg args "w").bind (parseList? (Codec.parse (α := α))),
         (getArg args "us").bind (parseList? (Codec.parse (α := α))) with
   | some w, some us => showIdx (multinomial w us) "ValueError"
   | _, _ => "bad-op"
 
+def showRun : RunResult → String
+  | .skipped => "skip"
+  | .indices idx => showList toString idx
+  | .indexError => "IndexError"
+  | .valueError => "ValueError"
+  | .unbound => "UnboundLocalError"
+
+/-- `run.F beta0=<0|1> scheme=<mult|syst|…> n=<nat> w=<floats> u0=<float> us=<floats>` → what `Resampler.run` gathers with -/
+def runCmd (α : Type) [Sc α] [Codec α] (args : List (String × String)) : String :=
+  match (getArg args "beta0"), (getArg args "scheme"), (getArg args "n").bind String.toNat?,
+        (getArg args "w").bind (parseList? (Codec.parse (α := α))),
+        (getArg args "u0").bind (Codec.parse (α := α)),
+        (getArg args "us").bind (parseList? (Codec.parse (α := α))) with
+  | some b, some sch, some n, some w, some u0, some us =>
+    let scheme := if sch == "mult" then Scheme.mult else if sch == "syst" then Scheme.syst else Scheme.other
+    showRun (resamplerRun (b == "1") scheme n w u0 us)
+  | _, _, _, _, _, _ => "bad-op"
+
+/-- `post.F w=<floats> u0=<float>` → the index vector of `compute_posterior(resample=True)` -/
+def postCmd (α : Type) [Sc α] [Codec α] (args : List (String × String)) : String :=
+  match (getArg args "w").bind (parseList? (Codec.parse (α := α))),
+        (getArg args "u0").bind (Codec.parse (α := α)) with
+  | some w, some u0 => showIdx (posteriorResample w u0) "IndexError"
+  | _, _ => "bad-op"
+
 def handle (cmd : String) (args : List (String × String)) : Option String :=
   match cmd with
   | "syst.F" => if (getArg args "s").isSome then some (syst Float args) else some "bad-op"
   | "syst.Q" => some (syst Rat args)
+  | "npsum.F" => some (npsum Float args)
+  | "npsum.Q" => some (npsum Rat args)
+  | "systnp.F" => some (systnp Float args)
+  | "systnp.Q" => some (systnp Rat args)
+  | "run.F" => some (runCmd Float args)
+  | "run.Q" => some (runCmd Rat args)
+  | "post.F" => some (postCmd Float args)
+  | "post.Q" => some (postCmd Rat args)
   | "mult.F" => some (mult Float args)
   | "mult.Q" => some (mult Rat args)
   | _ => none
